@@ -102,3 +102,62 @@ CLASS_MODELS[collections.deque] = _deque
 @function(typing.cast)
 def f_cast(it, typ, val):
     return val
+
+
+import copy as _copy
+
+
+def _deep(it, v):
+    v = it.resolve(v)
+    if isinstance(v, (SInt, SBool, SStr, SBytes, SNoneT, SFloat, SEnum)):
+        return v
+    if isinstance(v, STuple):
+        return STuple([_deep(it, x) for x in v.items])
+    if isinstance(v, SList):
+        return SList([_deep(it, x) for x in v.items])
+    if isinstance(v, SDict):
+        return SDict([(_deep(it, k), _deep(it, x)) for k, x in v.items])
+    if isinstance(v, SSet):
+        return SSet([_deep(it, x) for x in v.items])
+    raise Unsupported(f"copy.deepcopy of {v!r}")
+
+
+@function(_copy.deepcopy)
+def f_deepcopy(it, x, memo=None):
+    """copy.deepcopy on plain data (None/bool/int/float/str/bytes/tuple/list/dict/set): fresh containers, equal contents"""
+    return _deep(it, x)
+
+
+@function(_copy.copy)
+def f_copy(it, x):
+    v = it.resolve(x)
+    if isinstance(v, SList):
+        return SList(v.items)
+    if isinstance(v, SDict):
+        return SDict(v.items)
+    if isinstance(v, SSet):
+        return SSet(v.items)
+    if isinstance(v, (SInt, SBool, SStr, SBytes, SNoneT, SFloat, SEnum, STuple)):
+        return v
+    raise Unsupported(f"copy.copy of {v!r}")
+
+
+class Component:
+    """Opaque serialisable component (stand-in for connection.Client/Server, flow.Error, http.Request...): its whole
+    state is one value `v`. Used by contracts that treat the sub-object part of a flow's state as opaque."""
+
+    def __init__(self, v):
+        self.v = v
+
+    def get_state(self):
+        return {"v": self.v}
+
+    def set_state(self, state):
+        self.v = state.pop("v")
+
+    @classmethod
+    def from_state(cls, state):
+        return cls(state["v"])
+
+    def copy(self):
+        return Component(self.v)
